@@ -9,6 +9,7 @@ def _nontrivial(t):
 CFG = {
     "module": "Swat4.Properties.C13",
     "theorems": [
+        "Swat4.C13.facts_ok",
         "Swat4.C13.outcome_table",
         "Swat4.C13.transient_never_delists",
         "Swat4.C13.retry_keeps_listing",
